@@ -93,6 +93,111 @@ def spec_classes(spec):
     return labs
 
 
+OPTIONAL_FIELDS = [
+    "Recording.hash", "Recording.date", "Recording.time", "Recording.latitude", "Recording.longitude", "Recording.license", "Recording.rights",
+    "Recording.owners", "Recording.tags", "Recording.features", "Recording.notes", "Recording.time_expansion",
+    "User.username", "User.email", "User.name", "User.institution", "Note.created_by", "Clip.features", "SoundEvent.features", "SoundEvent.geometry=None",
+    "Sequence.parent", "Sequence.features", "SoundEventAnnotation.created_by", "SoundEventAnnotation.notes", "SoundEventAnnotation.tags",
+    "SequenceAnnotation.tags", "ClipAnnotation.tags", "ClipAnnotation.notes", "ClipAnnotation.sequences", "ClipPrediction.tags", "ClipPrediction.features",
+    "ClipPrediction.sequences", "SoundEventPrediction.tags", "SequencePrediction.tags", "Match.score", "Match.metrics", "ClipEvaluation.score", "ClipEvaluation.metrics",
+    "StatusBadge.owner", "top.description", "datetime.tz",
+]
+
+
+def field_labels(spec):
+    """which optional fields are set (non-default) somewhere in the spec - reported in the evidence and guarded in post()"""
+    out = set()
+    top = spec["top"]
+
+    def notes(ns):
+        for n in ns:
+            if n["created_by"] is not None:
+                out.add("Note.created_by")
+            if "+" in n["created_on"][10:] or "-" in n["created_on"][10:]:
+                out.add("datetime.tz")
+
+    for r in spec["recordings"]:
+        for k in ("hash", "date", "time", "latitude", "longitude", "license", "rights"):
+            if r[k] is not None:
+                out.add("Recording." + k)
+        for k in ("owners", "tags", "features", "notes"):
+            if r[k]:
+                out.add("Recording." + k)
+        if r["time_expansion"] != 1.0:
+            out.add("Recording.time_expansion")
+        notes(r["notes"])
+    for u in spec["users"]:
+        for k in ("username", "email", "name", "institution"):
+            if u[k] is not None:
+                out.add("User." + k)
+    for c in spec.get("clips", []):
+        if c["features"]:
+            out.add("Clip.features")
+    for e in spec.get("sound_events", []):
+        if e["features"]:
+            out.add("SoundEvent.features")
+        if e["geometry"] is None:
+            out.add("SoundEvent.geometry=None")
+    for q in spec.get("sequences", []):
+        if q["parent"] is not None:
+            out.add("Sequence.parent")
+        if q["features"]:
+            out.add("Sequence.features")
+    for a in spec.get("se_annotations", []):
+        if a["created_by"] is not None:
+            out.add("SoundEventAnnotation.created_by")
+        if a["notes"]:
+            out.add("SoundEventAnnotation.notes")
+        if a["tags"]:
+            out.add("SoundEventAnnotation.tags")
+        notes(a["notes"])
+    for a in spec.get("seq_annotations", []):
+        if a["tags"]:
+            out.add("SequenceAnnotation.tags")
+    for c in spec.get("clip_annotations", []):
+        for k in ("tags", "notes", "sequences"):
+            if c[k]:
+                out.add("ClipAnnotation." + k)
+    for c in spec.get("clip_predictions", []):
+        for k in ("tags", "features", "sequences"):
+            if c[k]:
+                out.add("ClipPrediction." + k)
+    for p in spec.get("se_predictions", []):
+        if p["tags"]:
+            out.add("SoundEventPrediction.tags")
+    for p in spec.get("seq_predictions", []):
+        if p["tags"]:
+            out.add("SequencePrediction.tags")
+    for ce in top.get("clip_evaluations", []):
+        if ce["score"] is not None:
+            out.add("ClipEvaluation.score")
+        if ce["metrics"]:
+            out.add("ClipEvaluation.metrics")
+        for m in ce["matches"]:
+            if m["score"] is not None:
+                out.add("Match.score")
+            if m["metrics"]:
+                out.add("Match.metrics")
+    for t in top.get("tasks", []):
+        for b in t["status_badges"]:
+            if b["owner"] is not None:
+                out.add("StatusBadge.owner")
+    if top.get("description") is not None:
+        out.add("top.description")
+    return ["field:" + f for f in sorted(out)]
+
+
+def post(tier, seed, failures, labels):
+    """Vacuity guard (harness error, never a verdict): every optional field must be set in some generated case."""
+    if failures:
+        return {}
+    seen = {k.split(":", 2)[2] for k in labels if ":field:" in k}
+    missing = [f for f in OPTIONAL_FIELDS if f not in seen]
+    if missing:
+        raise RuntimeError(f"generator never set optional field(s) {missing}")
+    return {"optional_fields_exercised": len(seen)}
+
+
 def nontrivial(spec):
     if spec_classes(spec):
         return True
@@ -135,7 +240,7 @@ def check(spec, ctx):
         audio = Path("rel audio") / "dir"  # a relative audio directory (never touched on disk: only path arithmetic)
     obj, _ = graphs.build(spec, audio_root=audio if spec["audio"] != "none" else None)
     path = os.path.join(d, "doc.json")
-    ctx.case(spec, nontrivial=nontrivial(spec), labels=[spec["ctype"], f"audio={spec['audio']}", f"cycles={spec['cycles']}"] + spec_classes(spec))
+    ctx.case(spec, nontrivial=nontrivial(spec), labels=[spec["ctype"], f"audio={spec['audio']}", f"cycles={spec['cycles']}"] + spec_classes(spec) + field_labels(spec))
     cur = obj
     for cycle in range(1, spec["cycles"] + 1):
         loaded = save_load(spec, ctx, cur, audio, path)
